@@ -149,6 +149,9 @@ pub struct Obs {
     /// per inserted term: cost of the extracted term (AstSize)
     pub costs: Vec<u64>,
     pub total_nodes: usize,
+    /// per inserted term: the e-nodes of its class as seen through the handle that insertion returned (user slots as arguments):
+    /// (number of e-nodes, how many of them look up to an invocation equal to the handle, sorted free-slot counts)
+    pub enode_views: Vec<(usize, usize, Vec<usize>)>,
 }
 
 fn sym_count(eg: &EGraph<LSym>, a: &AppliedId) -> usize {
@@ -267,7 +270,17 @@ pub fn observe(h: &MHist, nm: &Naming, run: &Run, with_costs: bool) -> Result<Ob
                 costs.push(ex.get_best_cost::<()>(&a));
             }
         }
-        Obs { eqs, live_classes: eg.ids().len(), class_profile, per_term, costs, total_nodes: eg.total_number_of_nodes() }
+        let mut enode_views = vec![];
+        for &i in &idx {
+            // (canonicalised first: which of two merged classes keeps the e-nodes is an internal choice; the arguments stay the user's slots)
+            let hd = &eg.find_applied_id(&run.ids[&i]);
+            let ns = eg.enodes_applied(hd);
+            let ok = ns.iter().filter(|n| eg.lookup(n).map(|x| eg.eq(&x, hd)).unwrap_or(false)).count();
+            let mut fs: Vec<usize> = ns.iter().map(|n| n.slots().len()).collect();
+            fs.sort();
+            enode_views.push((ns.len(), ok, fs));
+        }
+        Obs { eqs, live_classes: eg.ids().len(), class_profile, per_term, costs, total_nodes: eg.total_number_of_nodes(), enode_views }
     })
 }
 
@@ -282,6 +295,7 @@ fn diff(a: &Obs, b: &Obs, what: &[&str]) -> Option<String> {
             "term-slot-names" => a.per_term.iter().map(|x| &x.2).collect::<Vec<_>>() != b.per_term.iter().map(|x| &x.2).collect::<Vec<_>>(),
             "costs" => a.costs != b.costs,
             "nodes" => a.total_nodes != b.total_nodes,
+            "enode-views" => a.enode_views != b.enode_views,
             _ => false,
         };
         if d {
@@ -294,6 +308,7 @@ fn diff(a: &Obs, b: &Obs, what: &[&str]) -> Option<String> {
                 "profile" => format!("class (slots, symmetries) multiset {:?} vs {:?}", a.class_profile, b.class_profile),
                 "costs" => format!("extracted costs {:?} vs {:?}", a.costs, b.costs),
                 "nodes" => format!("node count {} vs {}", a.total_nodes, b.total_nodes),
+                "enode-views" => format!("per-term (e-nodes, e-nodes that look up to the handle, free-slot counts) through enodes_applied(handle): {:?} vs {:?}", a.enode_views, b.enode_views),
                 _ => format!("per-term (slots, symmetries, slot names) {:?} vs {:?}", a.per_term, b.per_term),
             };
             return Some(format!("{w}: {detail}"));
@@ -491,7 +506,7 @@ fn run_fresh(h: &MHist, nm: &Naming) -> Result<Obs, Option<(usize, PanicInfo)>> 
 fn c11_eval(h: &MHist, nb: &Naming) -> Option<(String, String)> {
     let oa = run_fresh(h, &Naming::neutral()).ok()?;
     let ob = run_fresh(h, nb).ok()?;
-    diff(&oa, &ob, &["eqs", "live", "profile", "term-slots", "term-syms", "term-slot-names", "costs", "nodes"]).map(|d| (d.split(':').next().unwrap().to_string(), d))
+    diff(&oa, &ob, &["eqs", "live", "profile", "term-slots", "term-syms", "term-slot-names", "costs", "nodes", "enode-views"]).map(|d| (d.split(':').next().unwrap().to_string(), d))
 }
 
 fn install_thread_hook() {}
